@@ -965,8 +965,9 @@ func (e *Engine) appendBuiltin(fr *Frame, st *State, ins ssa.Instruction, cc *ss
 // packages under verification.
 func (e *Engine) hasConcreteOwnIface(fn *ssa.Function, args []Val) bool {
 	for i, p := range fn.Params {
-		if _, ok := p.Type().Underlying().(*types.Interface); !ok || i >= len(args) {
-			continue
+		it, ok := p.Type().Underlying().(*types.Interface)
+		if !ok || i >= len(args) || it.NumMethods() == 0 {
+			continue // interface{}: the callee has no method to call through it
 		}
 		t, ok := args[i].(*Term)
 		if !ok || t.Sort != SIface {
